@@ -109,6 +109,9 @@ SUITE = [
     X.struct(X.uref(_IN, X.struct(I8)), X.uref(X.arr(F64, [2]))),
     X.struct(X.uref(X.arr(F64, [-1]), _IN), I8, X.ref(X.arr(I16, [-1, 2]))),
     X.arr(X.uref(X.arr(I16, [-1, 2]), X.arr(X.STR, [-1])), [-1]),
+    X.struct(I8, X.struct(X.ref(X.arr(F64, [-1])), X.STR), X.STR),
+    X.arr(X.struct(X.ref(X.arr(F64, [-1])), X.STR, X.arr(I8, [-1])), [-1]),
+    X.struct(X.ref(X.struct(X.ref(X.arr(I16, [-1])), X.STR)), X.STR, I64),
 ]
 
 
@@ -188,7 +191,13 @@ def prog_copy(w, rng):
     """C09: copy-construction into the same buffer, another buffer, another context, then writes on either side"""
     keys = []
     for _ in range(rng.randint(1, 2)):
-        k = w.new(pick_type(rng, True), rng.randrange(2))
+        tx = pick_type(rng, True)
+        if rng.random() < 0.6:          # copies are only interesting where they are not a plain byte copy: types holding references
+            for _ in range(20):
+                if X.has_refs(tx):
+                    break
+                tx = pick_type(rng, True)
+        k = w.new(tx, rng.randrange(2))
         if k is None:
             return
         keys.append(k)
@@ -207,6 +216,7 @@ ERR_KINDS = ["index-get", "index-set", "array-length", "string-too-long", "item-
 
 def prog_err(w, rng):
     """C11: objects with live neighbours, then operations that cannot be honoured (each must raise and change no value)"""
+    w.capacity_p = 0.4          # strings whose capacity was given explicitly (not a multiple of 8) are where "fits" is subtle
     for n in range(rng.randint(2, 4)):
         if n == 0 and w.index % 4 == 0:
             k = w.new(sweep_type(w.index // 4, rng)[0], rng.randrange(2), mindim=1)
@@ -426,6 +436,11 @@ def check(pid, argv=None):
         g = json.load(open(run.replay))["replay"]["gen"]
         hists = [make_history(g["pid"], g["seed"], g["index"])]
     else:
+        if pid in ("C05", "C03"):
+            from . import layoutmc
+            t1 = time.time()
+            layoutmc.model_level(run, pid)
+            run.notes["t_model_level"] = round(time.time() - t1, 1)
         n = COUNTS[run.tier]
         t1 = time.time()
         hists = [make_history(pid, run.seed, i) for i in range(n)]
@@ -435,7 +450,7 @@ def check(pid, argv=None):
     run.notes["t_validate"] = round(time.time() - t1, 1)
     run.cov["states"] += tot["distinct"]
     run.cov["transitions"] += tot["generated"]
-    run.cov["traces_validated_against_impl"] = len(hists)
+    run.cov["traces_validated_against_impl"] += len(hists)
     ops = collections.Counter()
     abandoned = collections.Counter()
     steps_ok = 0
